@@ -470,7 +470,7 @@ JANET_CORE_FN(cfun_net_connect,
     struct addrinfo *binding = NULL;
     if (bindhost != NULL) {
         if (is_unix) {
-            freeaddrinfo(ai);
+            janet_free(ai); /* a sockaddr_un from janet_get_addrinfo, not a getaddrinfo result */
             janet_panic("bindhost not supported for unix domain sockets");
         }
         /* getaddrinfo */
